@@ -733,3 +733,4 @@ MANIFEST = {
             "because both subclasses discard the value of super().p_norm — modelled as is (pNormMethod).",
     "technique": "Lean 4 theorems (Mathlib interval/Bochner integrals, rpow, Minkowski) over a hand-written model + differential correspondence at Rat/Float + quadrature oracle",
 }
+MANIFEST["note"] += " " + py2lean.manifest_note("pnorm")
